@@ -491,7 +491,8 @@ class ExcelInPython:
         
     def _left(self, text, num_chars):
         if num_chars is None:
-            return text[0]
+            # по умолчанию берётся один символ (у пустого текста - ни одного)
+            num_chars = 1
         if num_chars < 0:
             return '#ERROR!'
         if not text:
@@ -560,7 +561,8 @@ class ExcelInPython:
     
     def _right(self, text, num_chars):
         if num_chars is None:
-            return text[len(text) - 1]
+            # по умолчанию берётся один символ (у пустого текста - ни одного)
+            num_chars = 1
         if num_chars < 0:
             return '#ERROR!'
         if not text:
